@@ -33,6 +33,7 @@ value.
 Round 7: a kind served by several strategies told apart by a further test of _compile; a delimiter
 left out of the value is remembered for pack on that path (e'); a sized read is never rejected by
 the cursor position alone; includes the evaluator discipline of C09 (sizes given as expressions).
+Round 8: strategies read the field name at call time; includes the sequence language of C08.
 """
 import ast
 
